@@ -31,7 +31,7 @@ import stat as statmod
 import sys
 
 from . import fsx
-from .common import VERIF, Check, Err, Raw, cval, impl_call, shrink_list
+from .common import VERIF, Check, Err, Raw, cval, impl_call
 
 IMPORTS = ("From Coq Require Import List NArith ZArith Bool.\n"
            "From Verif Require Import Base.Val C18.Fs C28.Model_C28 C28.Spec_C28.")
@@ -297,7 +297,7 @@ def stream_text(chk, digest, work):
     path = str(work / "fake" / "cat" / "pkg" / "Manifest")
     os.makedirs(os.path.dirname(path))
     with FakeScan(digest) as fs_:
-        for i in range(chk.n(110, 3000)):
+        for i in range(chk.n(110, 2000)):
             hostile = rng.random() < 0.3
             thin, scan, fetch, cov = gen_fake(rng, hostile)
             # the model sees the objects as the scan yields them (fsBase normalises its location)
@@ -650,7 +650,7 @@ def stream_update(chk, digest, work):
     rng = chk.rng
     rows, metas, bad = [], [], []
     todo = [c for c in corpus_cases() if "files" in c]
-    todo += [None] * chk.n(24, 400)
+    todo += [None] * chk.n(24, 300)
     for i, case in enumerate(todo):
         if case is None:
             case = gen_pkg(rng, hostile=rng.random() < 0.12)
@@ -737,7 +737,7 @@ def stream_parse(chk, digest, work, texts):
     texts = [t for t in texts if isinstance(t, str) and t]
     good = rng.sample(texts, min(len(texts), chk.n(24, 300))) if texts else []
     cands += good
-    for _ in range(chk.n(110, 2500)):
+    for _ in range(chk.n(110, 2000)):
         t = rng.choice(good) if good and rng.random() < 0.8 else rng.choice(HAND_PARSE)
         if len(t) > 400:
             t = "\n".join(rng.sample(t.split("\n"), 2)) + "\n"
@@ -761,10 +761,6 @@ def stream_parse(chk, digest, work, texts):
 
 
 # ------------------------------------------------------------------ main
-def is_ascii_digits_only(_):
-    return True
-
-
 def main(chk: Check):
     from pkgcore.ebuild import digest
 
@@ -846,8 +842,11 @@ def main(chk: Check):
             break
         if name == "text":
             thin, scan, fetch, cov = text_metas[i]
-            chk.violation("property", {"what": "Spec_C28.spec_text_ok rejects the implementation's Manifest text (it "
-                                               "does not parse back to the covered files)",
+            raised = text_rows[i][1].term.startswith("(VErr")
+            chk.violation("property", {"what": ("Manifest.update raised on a well-formed package directory / distfile "
+                                                "set (Spec_C28.spec_text_ok)") if raised else
+                                               ("Spec_C28.spec_text_ok rejects the implementation's Manifest text (it "
+                                                "does not parse back to the covered files)"),
                                        "input": {"thin": thin, "scan": scan, "fetch": fetch},
                                        "implementation": text_rows[i][1].term[:2000]})
         else:
